@@ -49,3 +49,15 @@ Proof.
   rewrite ns_loop_translated.
   destruct (ns_loop 0 s _) as [a|e|]; reflexivity.
 Qed.
+
+(* the four other constructors and conversions, each translated from its own body: all delegate to new *)
+Lemma normalized_string_constructors_translated : forall s,
+  tr_normalized_string_from_str s = tr_normalized_string_new s /\
+  tr_normalized_string_from_string s = tr_normalized_string_new s /\
+  tr_normalized_string_try_from_str s = tr_normalized_string_new s /\
+  tr_normalized_string_try_from_string s = tr_normalized_string_new s.
+Proof.
+  intro s. unfold tr_normalized_string_from_str, tr_normalized_string_from_string,
+    tr_normalized_string_try_from_str, tr_normalized_string_try_from_string.
+  destruct (tr_normalized_string_new s); repeat split; reflexivity.
+Qed.
